@@ -130,28 +130,32 @@ def _model_cases(maxdim):
             for p in itertools.product([0, 1, -1, 2], repeat=3):
                 for ptype in PTYPES:
                     yield ['model', name, L, list(p), ptype]
+            # the same operator in other units: every parameter times 2^-70 / 2^40 (judged after undoing the scaling: the formulas are linear)
+            for p in itertools.product([0.0, 1.0, -G2], repeat=3):
+                for ptype in ('units:tiny', 'units:large'):
+                    yield ['model', name, L, list(p), ptype]
 
 
-def judge_common(ctx, mpo, Href, d, L, qd_expected, real_params):
-    ctx.check(mpo.nsites == L, 'number_of_sites', mpo.nsites)
+def judge_common(ctx, mpo, Href, d, L, qd_expected, real_params, prefix=''):
+    ctx.check(mpo.nsites == L, prefix + 'number_of_sites', mpo.nsites)
     M = dense.mpo_to_matrix(mpo.A)
     ctx.obs(M)
-    ctx.close(M, Href, 'dense_matrix_equals_documented_formula')
+    ctx.close(M, Href, prefix + 'dense_matrix_equals_documented_formula')
     if real_params:
-        ctx.close(M, M.conj().T, 'hermitian_for_real_parameters')
+        ctx.close(M, M.conj().T, prefix + 'hermitian_for_real_parameters')
     qd = np.asarray(mpo.qd)
     if qd_expected and isinstance(qd_expected[0], tuple):
         got = [dense.decode_pair(q) for q in qd]
-        ctx.check(got == qd_expected, 'physical_charges_are_particle_number_and_spin', got)
+        ctx.check(got == qd_expected, prefix + 'physical_charges_are_particle_number_and_spin', got)
     else:
-        ctx.check(qd.tolist() == list(qd_expected), 'physical_charges_as_documented', qd.tolist())
-    ctx.check(all(len(q) == (a.shape[2]) for q, a in zip(mpo.qD, mpo.A)) and len(mpo.qD[-1]) == mpo.A[-1].shape[3], 'bond_charge_lengths')
-    ctx.check(not dense.mpo_masks_ok(mpo.A, mpo.qd, mpo.qD), 'tensors_block_sparse_under_returned_charges')
+        ctx.check(qd.tolist() == list(qd_expected), prefix + 'physical_charges_as_documented', qd.tolist())
+    ctx.check(all(len(q) == (a.shape[2]) for q, a in zip(mpo.qD, mpo.A)) and len(mpo.qD[-1]) == mpo.A[-1].shape[3], prefix + 'bond_charge_lengths')
+    ctx.check(not dense.mpo_masks_ok(mpo.A, mpo.qd, mpo.qD), prefix + 'tensors_block_sparse_under_returned_charges')
     # conservation law on the dense matrix
     Q = dense.site_charges(qd, L)
     shift = int(np.asarray(mpo.qD[-1])[0]) - int(np.asarray(mpo.qD[0])[0])
     viol = np.count_nonzero((np.abs(M) > 1e-13) & ((Q[:, None] - Q[None, :]) != shift))
-    ctx.check(viol == 0, 'dense_operator_conserves_charge_up_to_fixed_shift', f'{viol} entries violate, shift={shift}')
+    ctx.check(viol == 0, prefix + 'dense_operator_conserves_charge_up_to_fixed_shift', f'{viol} entries violate, shift={shift}')
 
 
 def run_model_case(case, ctx):
@@ -162,14 +166,26 @@ def run_model_case(case, ctx):
     live = [x for k, x in enumerate(p) if (k not in two) or L >= 2]
     if not any(x != 0 for x in live):
         raise OutOfDomain()
-    conv = {'float': float, 'int': int, 'np_int64': np.int64, 'np_float32': np.float32, 'array0d': lambda x: np.array(float(x))}[ptype]
+    unit = {'units:tiny': 2.0 ** -70, 'units:large': 2.0 ** 40}.get(ptype, 1.0)
+    conv = {'float': float, 'int': int, 'np_int64': np.int64, 'np_float32': np.float32, 'array0d': lambda x: np.array(float(x))}.get(ptype, lambda x: x * unit)
     mpo = build(L, [conv(x) for x in p])
     ctx.calls += 1
     ctx.cls('model:' + name)
     ctx.cls('parameter_type:' + ptype)
+    if unit != 1.0:
+        mpo.A[0] = mpo.A[0] / unit          # undo the units (exact: power of two) before comparing with the formula
     ctx.cls(f'L={L}' if L <= 2 else 'L>=3')
     ctx.nontrivial = L >= 2 and sum(1 for x in p if x != 0) >= 2
     judge_common(ctx, mpo, ref(L, p), d, L, qd_exp, True)
+    if ptype == 'float' and L <= 3 and not ctx.fails:
+        # the constructor is called again after the first result has been modified in place (tensor entries, quantum numbers):
+        # the second result must again be the documented operator
+        mpo.A[0] *= 0
+        mpo.A[-1] += 1
+        mpo.zero_qnumbers()
+        again = build(L, [float(x) for x in p])
+        ctx.calls += 1
+        judge_common(ctx, again, ref(L, p), d, L, qd_exp, True, prefix='second_call_after_mutating_first_result:')
 
 
 COEFF_KINDS = ['real', 'complex', 'with_zeros', 'ones']
